@@ -451,8 +451,8 @@ static void scen_unit(unsigned s) {
   add_stats(&st, true);
   vf_state(vf_mix(s, st.executions));
   /* unreduced cross-check: every shared access is a scheduling point */
-  int ub = cur_n == 2 ? (vf_tier ? 2 : 1) : 1;
-  uint64_t cap = vf_tier ? 3000000 : 300000;
+  int ub = cur_n == 2 ? (vf_tier ? 3 : 2) : (vf_tier ? 2 : 1);
+  uint64_t cap = vf_tier ? 4000000 : 400000;
   vs_explore(cur_n, b, ub, 0, cap, NULL, check17, &st);
   add_stats(&st, false);
   vf_sample("scenario %s: unreduced exploration to bound %u%s: %" PRIu64 " schedules, %" PRIu64 " scheduling points per schedule at most, %" PRIu64 " distinct shared addresses, %" PRIu64 " of them written", scen_name,
@@ -661,10 +661,10 @@ struct vf_check vf_the_check = {
     .level = "model_checking",
     .rule = "scenarios = all 10 unordered pairs and all 20 unordered triples of the thread bodies {W_decode, W_build, W_stream, W_err} (identical bodies included), each on thread-private data with the "
             "allocator configured once. Per scenario: (1) reduced exploration, preemption bound 0,1,2: scheduling points only at conflict candidates (addresses touched by >= 2 threads with >= 1 store), closed "
-            "under re-exploration; (2) unreduced exploration: every access of library code to non-thread-private memory is a scheduling point, bound 1 (pairs: 2 in the thorough tier). evaluations = complete "
+            "under re-exploration; (2) unreduced exploration: every access of library code to non-thread-private memory is a scheduling point, pairs to bound 2 (3 in the thorough tier), triples to bound 1 (2), each capped at 400 000 (4 000 000) schedules. evaluations = complete "
             "schedules executed on the real object code, transitions = scheduling points taken, states = schedules; distinct_nontrivial = scenarios. Oracles on every execution: no conflicting access pair, no "
             "store to a global/static object, no access to another thread's private memory, per-thread result digest = digest of the thread running alone",
-    .bounds = {"pairs + triples; reduced to bound 2; unreduced to bound 1", "pairs + triples; reduced to bound 2; unreduced to bound 2 (pairs) / 1 (triples), capped at 3 000 000 schedules per scenario"},
+    .bounds = {"pairs + triples; reduced to bound 2; unreduced to bound 2 (pairs) / 1 (triples)", "pairs + triples; reduced to bound 2; unreduced to bound 3 (pairs) / 2 (triples), capped at 4 000 000 schedules per scenario"},
 #else
     .property = "C18",
     .level = "model_checking",
